@@ -153,7 +153,7 @@ TakeResults(s, m) ==
 H_UpdateCurator(s, m) ==
   IF ~HasBasket(s, m.denom) THEN Fail(s) ELSE
   LET k == BasketByDenom(s, m.denom) IN
-  IF k.curator # m.curator \/ m.curator = m.new_curator THEN Fail(s)
+  IF k.curator # m.curator THEN Fail(s)     \* curator # new_curator as strings: RawOK
   ELSE Ok([s EXCEPT !.baskets = (@ \ {k}) \cup {[k EXCEPT !.curator = m.new_curator]}])
 
 H_UpdateBasketFee(s, m) ==
